@@ -123,6 +123,10 @@ class Check:
     def finish(self):
         wall = time.time() - self.t0
         self.cov["distinct_nontrivial"] = len(self._distinct)
+        if not self.cov["samples"]:
+            self.cov["samples"].append({"note": "no case was completed by this run",
+                                        "machinery_errors": self.machinery_errors[:2]})
+        self.cov["states"] = max(1, self.cov["states"]) if self.cov["evaluations"] else self.cov["states"]
         for key, (e, n) in self.known_hits.items():
             print(f"KNOWN-FINDING: property={self.prop} {e['what']} [{n} occurrence(s)]")
             self.cov["known_findings_hit"].append(dict(id=key, occurrences=n))
